@@ -235,12 +235,13 @@ def search(mod, ctx, known_sigs, sig):
     """Search model and implementation for a failing input: rerun the property's
     generators with the thorough budget under other seeds, bounded in time."""
     deadline = time.time() + float(os.environ.get("VERIF_SEARCH_S", "240"))
-    for i, s in enumerate([ctx["seed"] + 7919, ctx["seed"] + 104729]):
+    stier = "thorough" if ctx["tier"] == "thorough" else "quick"
+    for i, s in enumerate([ctx["seed"] + 7919, ctx["seed"] + 104729, ctx["seed"] + 1299709]):
         for st in mod.STREAMS:
             if time.time() > deadline:
                 return None
             try:
-                cs, _ = core.run_stream(ctx["harness"], ctx["modelrun"], st, "thorough", s,
+                cs, _ = core.run_stream(ctx["harness"], ctx["modelrun"], st, stier, s,
                                         os.path.join(ctx["workdir"], "search%d" % i), ctx["log"],
                                         extra_args=getattr(mod, "HARNESS_ARGS", ()),
                                         timeout=int(max(30, deadline - time.time())))
